@@ -54,6 +54,14 @@ func c15Hook(t *irT, e ast.Expr, env *irEnv) (irTerm, bool, error) {
 			return irTerm{"[]", "List U16"}, true, nil
 		}
 	case *ast.BinaryExpr:
+		// 1 << 16 (the bound of the id search loop in getPacketFromMsg): a constant
+		if x.Op.String() == "<<" {
+			if a, ok := x.X.(*ast.BasicLit); ok && a.Value == "1" {
+				if b, ok := x.Y.(*ast.BasicLit); ok && b.Value == "16" {
+					return irTerm{"65536", "lit"}, true, nil
+				}
+			}
+		}
 		// subscribers == nil  (the map returned by findSubscribers on an invalid topic)
 		if id, ok := x.X.(*ast.Ident); ok && t.r.Src(x.Y) == "nil" {
 			if v, ok := env.vars[id.Name]; ok && v.Ty == "SubsMap" {
